@@ -201,3 +201,16 @@ def model_state(an, model):
         ty = an.env.cls(an.env.objects[o]).prop(p).ty
         st[(o, p)] = (z3_to_py(v, ty, model, ids), ty)
     return st
+
+
+def valgrind_uninit(workdir):
+    """second build without auto-var-init / sanitizers, run under valgrind memcheck: does the emitted code use an
+    uninitialised value?  -> (True/False/None, excerpt)"""
+    r = subprocess.run(['g++', '-std=c++17', '-O0', '-g', '-w', 'driver.cpp', '-o', 'driver_vg'], cwd=workdir, capture_output=True, text=True, timeout=300)
+    if r.returncode != 0:
+        return None, 'compile error'
+    r = subprocess.run(['valgrind', '-q', '--error-exitcode=9', '--track-origins=no', './driver_vg'], cwd=workdir, capture_output=True, text=True, timeout=300)
+    err = r.stderr
+    hit = ('uninitialised value' in err) and ('UiSupport::' in err)
+    ex = '\n'.join(l for l in err.split('\n') if 'uninitialised' in l or 'UiSupport::' in l)[:600]
+    return hit, ex
